@@ -35,7 +35,7 @@ pub fn requirements(tier: Tier) -> Vec<(&'static str, u64)> {
         ("random-histories", if q { 20_000 } else { 1_000_000 }),
         ("random-transitions", if q { 1_000_000 } else { 50_000_000 }),
         ("max:collection-size", 8),
-        ("set:operation-forms-exercised", 44),
+        ("set:operation-forms-exercised", 45),
         ("observed:documented-index-panic", 1_000),
         ("observed:invalid-key-refused", 10_000),
         ("observed:case-variant-lookup-hit", 10_000),
@@ -174,6 +174,8 @@ pub enum QOp {
     IntoIterMutAppend(String),
     LenIsEmpty,
     CloneEqHash,
+    /// `q.clone_from(&other)` where `other` is built from the pairs (shorter, equal or longer)
+    CloneFrom(Vec<(String, String)>),
     TryFromIter(Vec<(String, String)>),
     /// second collection with the same content, inserted in another order and key case
     Rebuild(u64),
@@ -225,6 +227,7 @@ impl QOp {
             QOp::IntoIterMutAppend(..) => "into_iter(&mut)",
             QOp::LenIsEmpty => "len/is_empty",
             QOp::CloneEqHash => "clone/eq/hash",
+            QOp::CloneFrom(..) => "clone_from",
             QOp::TryFromIter(..) => "try_from_iter",
             QOp::Rebuild(..) => "rebuild-other-order",
             QOp::CmpWith(..) => "cmp",
@@ -438,6 +441,16 @@ pub fn apply_model(m: &mut M, op: &QOp) -> String {
         },
         QOp::LenIsEmpty => format!("{},{}", m.len(), m.is_empty()),
         QOp::CloneEqHash | QOp::Rebuild(_) => "true".into(),
+        QOp::CloneFrom(pairs) => {
+            let mut n = M::new();
+            for (k, v) in pairs {
+                if key_ok(k) {
+                    n.insert(ascii_lower(k), v.clone());
+                }
+            }
+            *m = n;
+            list(m)
+        },
         QOp::TryFromIter(pairs) => {
             let mut n = M::new();
             for (k, v) in pairs {
@@ -740,6 +753,14 @@ pub fn apply_real(q: &mut Qualifiers, op: &QOp) -> String {
                 (c == *qr && hash_of(&c) == hash_of(qr) && c.cmp(qr) == std::cmp::Ordering::Equal && c.partial_cmp(qr) == Some(std::cmp::Ordering::Equal)).to_string()
             }
         },
+        QOp::CloneFrom(pairs) => {
+            let mut other = Qualifiers::default();
+            for (k, v) in pairs {
+                let _ = other.insert(k.as_str(), v.as_str());
+            }
+            q.clone_from(&other);
+            real_list(q)
+        },
         QOp::TryFromIter(pairs) => match Qualifiers::try_from_iter(pairs.iter().map(|(k, v)| (k.as_str(), v.as_str()))) {
             Ok(n) => {
                 *q = n;
@@ -950,6 +971,7 @@ fn universe_ops() -> Vec<QOp> {
     for ps in pair_sets {
         let ps: Vec<(String, String)> = ps.iter().map(|(k, v)| (s(k), s(v))).collect();
         v.push(QOp::TryFromIter(ps.clone()));
+        v.push(QOp::CloneFrom(ps.clone()));
         v.push(QOp::CmpWith(ps.into_iter().filter(|(k, _)| key_ok(k)).collect()));
     }
     v
@@ -1066,7 +1088,14 @@ fn rand_op(r: &mut Rng, pool: &[String]) -> QOp {
             let n = r.below(6);
             QOp::TryFromIter((0..n).map(|_| (rand_key(r, pool), rand_val(r))).collect())
         },
-        41 => QOp::Rebuild(r.next()),
+        41 => {
+            if r.coin() {
+                QOp::Rebuild(r.next())
+            } else {
+                let n = r.below(8);
+                QOp::CloneFrom((0..n).map(|_| (rand_key(r, pool), rand_val(r))).collect())
+            }
+        },
         42 => {
             let n = r.below(5);
             QOp::CmpWith((0..n).map(|_| (rand_key(r, pool), rand_val(r))).filter(|(k, _)| key_ok(k)).collect())
